@@ -30,6 +30,7 @@ def features(case, run, val):
     if any(e.get('async') for e in case['edges']): f.append('async')
     f.append('outcome:' + val.impl_kind)
     if getattr(val, 'flat_certified', None): f.append('flat_certified (premise of C05_progress_flat holds)')
+    elif getattr(val, 'uniform_certified', None): f.append('uniform_certified (premise of C05_progress_one_group holds)')
     return f
 
 
